@@ -51,7 +51,7 @@ template <typename _Derived>
 void
 identity(LieGroupBase<_Derived>& lie_group)
 {
-  lie_group.identity();
+  lie_group.setIdentity();
 }
 
 template <typename _LieGroup>
@@ -64,7 +64,7 @@ template <typename _Derived>
 void
 zero(TangentBase<_Derived>& tangent)
 {
-  tangent.zero();
+  tangent.setZero();
 }
 
 template <typename _Tangent>
@@ -77,7 +77,7 @@ template <typename _Derived>
 void
 random(LieGroupBase<_Derived>& lie_group)
 {
-  lie_group.random();
+  lie_group.setRandom();
 }
 
 template <typename _Type>
@@ -90,13 +90,13 @@ template <typename _Derived>
 void
 random(TangentBase<_Derived>& tangent)
 {
-  tangent.random();
+  tangent.setRandom();
 }
 
 template <typename _Derived>
 typename _Derived::LieGroup
 inverse(const LieGroupBase<_Derived>& lie_group,
-        typename _Derived::OpJacobianRef J_minv_m = {})
+        typename _Derived::OptJacobianRef J_minv_m = {})
 {
   return lie_group.inverse(J_minv_m);
 }
@@ -105,8 +105,8 @@ template <typename _DerivedMan, typename _DerivedTan>
 typename _DerivedMan::LieGroup
 rplus(const LieGroupBase<_DerivedMan>& lie_group,
       const TangentBase<_DerivedTan>& tangent,
-      typename _DerivedMan::OpJacobianRef J_mout_m = {},
-      typename _DerivedMan::OpJacobianRef J_mout_t = {})
+      typename _DerivedMan::OptJacobianRef J_mout_m = {},
+      typename _DerivedMan::OptJacobianRef J_mout_t = {})
 {
   return lie_group.rplus(tangent, J_mout_m, J_mout_t);
 }
@@ -115,8 +115,8 @@ template <typename _DerivedMan, typename _DerivedTan>
 typename _DerivedMan::LieGroup
 lplus(const LieGroupBase<_DerivedMan>& lie_group,
       const TangentBase<_DerivedTan>& tangent,
-      typename _DerivedMan::OpJacobianRef J_mout_m = {},
-      typename _DerivedMan::OpJacobianRef J_mout_t = {})
+      typename _DerivedMan::OptJacobianRef J_mout_m = {},
+      typename _DerivedMan::OptJacobianRef J_mout_t = {})
 {
   return lie_group.lplus(tangent, J_mout_m, J_mout_t);
 }
@@ -125,8 +125,8 @@ template <typename _DerivedMan, typename _DerivedTan>
 typename _DerivedMan::LieGroup
 plus(const LieGroupBase<_DerivedMan>& lie_group,
      const TangentBase<_DerivedTan>& tangent,
-     typename _DerivedMan::OpJacobianRef J_mout_m = {},
-     typename _DerivedMan::OpJacobianRef J_mout_t = {})
+     typename _DerivedMan::OptJacobianRef J_mout_m = {},
+     typename _DerivedMan::OptJacobianRef J_mout_t = {})
 {
   return lie_group.plus(tangent, J_mout_m, J_mout_t);
 }
@@ -219,8 +219,10 @@ template <typename _Derived>
 typename _Derived::Vector
 act(const LieGroupBase<_Derived>& lie_group,
     typename _Derived::Vector v,
-    typename _Derived::OptJacobianRef J_vout_m = {},
-    typename _Derived::OptJacobianRef J_vout_v = {})
+    tl::optional<Eigen::Ref<Eigen::Matrix<
+      typename _Derived::Scalar, _Derived::Dim, _Derived::DoF>>> J_vout_m = {},
+    tl::optional<Eigen::Ref<Eigen::Matrix<
+      typename _Derived::Scalar, _Derived::Dim, _Derived::Dim>>> J_vout_v = {})
 {
   return lie_group.act(v, J_vout_m, J_vout_v);
 }
